@@ -119,6 +119,16 @@ Theorem C10_unquote_unquoted : forall q,
 Proof. exact unquote_unquoted. Qed.
 Print Assumptions C10_unquote_unquoted.
 
+(* ---- purity: the model functions have no state, so equal arguments give equal results whatever was
+   computed before.  (Trivial in Gallina; it documents the clause the harness checks on the code, where a
+   module-level memo / functools cache shared between encoders would break it.) *)
+Theorem C10_functions_are_pure : forall iv ck s1 s2 p1 p2,
+  s1 = s2 -> p1 = p2 ->
+  encoder iv ck s1 = encoder iv ck s2 /\ decode s1 p1 = decode s2 p2 /\
+  parse_host s1 None = parse_host s2 None /\ unquote_string s1 = unquote_string s2.
+Proof. intros; subst; repeat split; reflexivity. Qed.
+Print Assumptions C10_functions_are_pure.
+
 (* ---- the oracles the harness evaluates on the implementation accept the model *)
 Theorem C10_enc_oracle_sound : forall is_value check s out out2,
   encoder is_value check s = Ok out -> encoder is_value check out = Ok out2 ->
